@@ -229,6 +229,13 @@ class RichChkTrigTranscoder(
                     )
                     self.log.error(msg)
                     raise ValueError(msg)
+        if len(decoded_conditions) > self._NUM_CONDITIONS_PER_TRIGGER:
+            msg = (
+                f"A trigger can hold at most {self._NUM_CONDITIONS_PER_TRIGGER} conditions "
+                f"but {len(decoded_conditions)} were given."
+            )
+            self.log.error(msg)
+            raise ValueError(msg)
         while len(decoded_conditions) < self._NUM_CONDITIONS_PER_TRIGGER:
             decoded_conditions.append(self._generate_empty_condition())
         return decoded_conditions
@@ -272,6 +279,13 @@ class RichChkTrigTranscoder(
                     )
                     self.log.error(msg)
                     raise ValueError(msg)
+        if len(decoded_actions) > self._NUM_ACTIONS_PER_TRIGGER:
+            msg = (
+                f"A trigger can hold at most {self._NUM_ACTIONS_PER_TRIGGER} actions "
+                f"but {len(decoded_actions)} were given."
+            )
+            self.log.error(msg)
+            raise ValueError(msg)
         while len(decoded_actions) < self._NUM_ACTIONS_PER_TRIGGER:
             decoded_actions.append(self._generate_empty_action())
         return decoded_actions
